@@ -234,7 +234,14 @@ def run_property(pid, tier, seed):
 
     wall = time.time() - t0
     meta = getattr(mod, "META", {}) if mod else {}
-    proof_only = bool(meta.get("level") == "proof")
+    claimed = None
+    try:
+        for c in json.load(open(os.path.join(ROOT, "MANIFEST.json")))["checks"]:
+            if c["property_id"] == pid:
+                claimed = c["level_claimed"]["category"]
+    except Exception:
+        pass
+    proof_only = (claimed == "proof") if claimed is not None else bool(meta.get("level") == "proof")
     level = "proof" if proof_only and n_obl > 0 and n_dis == n_obl else "other"
     samples = []
     for rep in reports[:6]:
